@@ -8,7 +8,8 @@ from ..observe import dv_meta, all_vectors, lcg_vectors
 ID = 'C17'
 RULE = ('cases = generated G-SEL spec with 1-4 metric nodes of every direction/reference/declared-type combination under '
         'permanent and conditional nodes x all decoded architectures x an evaluator returning complete / partial / NaN '
-        'maps (drawn per metric); oracle = implication table taken from the statement (objective => direction and in '
+        'maps (drawn per metric) over exactly the requested nodes / over all metric nodes of the design space / in one dict '
+        'that persists across evaluate() calls; oracle = implication table taken from the statement (objective => direction and in '
         'every reference architecture; constraint => direction and reference; NONE => unused; both possible => declared '
         'role decides, undeclared => error) and evaluation model (one value per objective/constraint, name order, '
         'evaluator value / NaN / reference value for absent constraint, metric_values mirror); one evaluation = one '
